@@ -1017,8 +1017,9 @@ void f_switch () {
           l = current_prog->program + offset;
           COPY_INT (&d, end_tab - 4);
           /* d is minimum value - see if in range or not */
-          if (s >= d && l + (s = (s - d) * sizeof (short)) < (end_tab - 4))
+          if (s >= d && (uint64_t) s - (uint64_t) (int64_t) d < (uint64_t) ((end_tab - 4) - l) / sizeof (short))
             {
+              s = (s - d) * sizeof (short);
               COPY_SHORT (&offset, &l[s]);
               if (offset)
                 {
